@@ -78,10 +78,10 @@ type window struct {
 }
 
 var windows = []window{
-	{"now..+365d", 0, 365 * 24 * time.Hour},           // the real client
-	{"-1h..+2h", -time.Hour, 2 * time.Hour},           // expires after a modest clock jump
+	{"now..+365d", 0, 365 * 24 * time.Hour},                 // the real client
+	{"-1h..+2h", -time.Hour, 2 * time.Hour},                 // expires after a modest clock jump
 	{"+30m..+365d", 30 * time.Minute, 365 * 24 * time.Hour}, // not yet valid; valid after a jump
-	{"-2h..-1h", -2 * time.Hour, -time.Hour},          // expired by its dates
+	{"-2h..-1h", -2 * time.Hour, -time.Hour},                // expired by its dates
 	{"-1h..+10m", -time.Hour, 10 * time.Minute},
 	{"+48h..+72h", 48 * time.Hour, 72 * time.Hour},
 	{"-1h..+9d", -time.Hour, 9 * 24 * time.Hour},
